@@ -60,6 +60,8 @@ type Config struct {
 	PreBlock, MidBlock, PreFS []string
 	HoldIsAccept bool // FBB reading of answer H: "accepted but will be held" = transfer it (known-finding probe only)
 	EarlyFQ    bool // CMS habit: FQ right after an all-refused block when the library's last turn was FF
+	// EarlyFQAfterData: the same habit after a block of which messages were sent (FQ follows the last frame at once)
+	EarlyFQAfterData bool
 	Gzip       bool // peer offers 'D' proposals when both sides advertise G
 	// Late > 0: the last Late messages of Queue reach the peer (a gateway) during the session - they become
 	// available only after the peer has said FF once. A station may propose again on a later turn after an FF;
@@ -436,9 +438,12 @@ func (p *peer) myTurn() (done bool, err error) {
 			}
 		}
 	}
-	if p.c.EarlyFQ && nAcc == 0 && p.libLastFF && len(p.myPending()) == 0 {
+	if p.c.EarlyFQ && (nAcc == 0 || p.c.EarlyFQAfterData) && p.libLastFF && len(p.myPending()) == 0 {
 		// CMS habit: do not wait for the library's turn
 		p.res.Choices["early-FQ"]++
+		if nAcc > 0 {
+			p.res.Choices["early-FQ-after-data"]++
+		}
 		p.send("FQ\r")
 		return true, nil
 	}
